@@ -12,6 +12,7 @@ import (
 	"crypto/x509"
 	"crypto/x509/pkix"
 	"encoding/hex"
+	"encoding/pem"
 	"fmt"
 	"math/big"
 	"io"
@@ -45,7 +46,7 @@ func verifC41Mk(name string, notBefore, notAfter time.Time, dns string, parent *
 	}
 	tpl := &x509.Certificate{
 		SerialNumber: big.NewInt(time.Now().UnixNano()), Subject: pkix.Name{CommonName: name},
-		NotBefore: notBefore, NotAfter: notAfter, DNSNames: []string{dns},
+		NotBefore: notBefore, NotAfter: notAfter, DNSNames: []string{dns}, IPAddresses: []net.IP{net.ParseIP("127.0.0.1")},
 		KeyUsage: x509.KeyUsageDigitalSignature | x509.KeyUsageCertSign, BasicConstraintsValid: true, IsCA: isCA,
 		ExtKeyUsage: []x509.ExtKeyUsage{x509.ExtKeyUsageServerAuth},
 	}
@@ -79,7 +80,19 @@ func verifC41Init() {
 	_, caCert, caKey := verifC41Mk("ca", now.Add(-time.Hour), now.Add(time.Hour), "ca", nil, nil, true)
 	d, _, _ := verifC41Mk("chained", now.Add(-time.Hour), now.Add(time.Hour), "localhost", caCert, caKey, false)
 	e, _, _ := verifC41Mk("notyetvalid", now.Add(24*time.Hour), now.Add(48*time.Hour), "localhost", nil, nil, false)
-	verifC41Certs = []verifC41Cert{a, b, c, d, e}
+	// a leaf that IS valid for the dialled name under the SYSTEM roots of this process: its CA is installed through
+	// SSL_CERT_FILE before anything in the process verifies a chain (Go loads the system pool once, lazily). The pin must
+	// decide alone: a certificate a public CA would vouch for is refused like any other when its digest differs.
+	tca, tcaCert, tcaKey := verifC41Mk("trustedca", now.Add(-time.Hour), now.Add(time.Hour), "trustedca", nil, nil, true)
+	if dir, err := os.MkdirTemp("", "verifc41ca"); err == nil {
+		pemBytes := pem.EncodeToMemory(&pem.Block{Type: "CERTIFICATE", Bytes: tca.cert.Certificate[0]})
+		if os.WriteFile(dir+"/ca.pem", pemBytes, 0o600) == nil {
+			os.Setenv("SSL_CERT_FILE", dir+"/ca.pem") //nolint:errcheck
+			os.Setenv("SSL_CERT_DIR", dir)            //nolint:errcheck
+		}
+	}
+	f, _, _ := verifC41Mk("systemtrusted", now.Add(-time.Hour), now.Add(time.Hour), "localhost", tcaCert, tcaKey, false)
+	verifC41Certs = []verifC41Cert{a, b, c, d, e, f}
 }
 
 // one long-lived HTTPS server per (certificate, TLS version) and history: connections of one history reach the SAME
